@@ -247,6 +247,7 @@ func resolveHook(h *clientHook) *clientHook {
 func (c *Client) SendCall(ctx context.Context, s Send) (*Answer, ReleaseFunc) {
 	h, _, released, finish := c.startCall()
 	defer finish()
+	verifYield("SendCall")
 	if released {
 		return ErrorAnswer(s.Method, newError("call on released client")), func() {}
 	}
